@@ -1,12 +1,33 @@
-"""P_sel -- property C10 for the selective elements that C02 (RunIf) and C19 (Write) do not cover.
+"""P_sel -- property C10 "Elements pass values they do not select through unchanged" for the selective elements that
+C02 (RunIf.run) and C19 (Write.run) do not cover: PDFToPNG, RenderLaTeX (user select_data / default _is_csv), ToCSV,
+HistToGraph, IterateBins, MapBins, MapGroup (map_scalars off), LaTeXToPDF -- each `run` generator under contract.
 
-DRAFT"""
+Every contract states, per value of the flow (clauses at the yields, loop invariants, per-iteration postconditions):
+  (1) a value the element does not select is yielded as the VERY SAME object (`yielded is val`), when exactly the values
+      up to it have been pulled (`pulled(flow) == _i + 1`), exactly once (yield_count(): one yield per input for the
+      one-to-one elements, `yield_count() == <count at the start of the iteration> + 1` for the others): identity, no
+      drop, no duplicate, unchanged relative order;
+  (2) for such a value nothing on disk changes (`fs() == _fs0`, ghost file system), no field of self changes (frame:
+      `modifies` names no field), and nothing of its context changes (`ctx_now(val) == vctx(val)`);
+  (3) what is yielded for a selected value is written from the CURRENT value and the element's fields only.  The loop is
+      cut at its invariant, every local the body assigns is unknown at the loop head, so a result that used a local
+      carried over from an earlier iteration (or a field changed in one) could not be proved equal to these expressions.
+The SELECTION TEST of every element (isinstance, context keys through get_recursively, hasattr, the bin selector) is
+executed from the real AST; `selected` in the clauses is written independently from the docstrings (ctx_get = the dotted
+path written out, is_instance_of, has_attr, el_call of the user's selector).  What is abstracted in the branches for
+SELECTED values is listed per contract (abstract= locals, assumed callee contracts, opaque regions) and appears among the
+assumptions of the unit.
+
+"""
 from pyvc.contracts import Contract, LoopSpec, ClassSpec
 from pyvc.smt import T
 from pyvc.sym import Bool, Opaque
 
 CF = "lena/context/functions.py"
 PP = "lena/output/pdf_to_png.py"
+RL = "lena/output/render_latex.py"
+TC = "lena/output/to_csv.py"
+SE = "lena/structures/elements.py"
 
 
 def _ufun_spec(name, arg_sorts, res_sort):
@@ -57,23 +78,23 @@ def sp_ctx_get(ip, st, pos, kws):
 
 
 PDF_SEL = "ctx_get(vctx(val), 'output', 'filetype') == present('pdf')"
-CTX_WF = ["not ('output' in c) or isdict(c['output'])"]
 
 
 def register_pdf_to_png(ix):
     ix.spec_names["pdf_stem"] = _ufun_spec("pdf_stem", ["V"], "Key")
     ix.add_class(ClassSpec("PDFToPNG", PP, fields={"_format": "Str", "_timeoutsec": "Int", "_overwrite": "Bool",
                                                    "_verbose": "Bool"}))
-    ix.add(Contract(PP, "_run_command", props=[], trusted=True, ghost={"fs": True},
+    ix.add(Contract(PP, "_run_command", props=[], trusted=True, ghost={"v_copy_distinct": True, "fs": True},
                     params={"command": "Any", "verbose": "Any", "timeoutsec": "Any"}, result=None,
                     modifies=["fs"],
                     notes="assumed: the external program pdftoppm may change anything on disk, and nothing else"))
     PNG = "pdf_stem(vdata(val)) + ('.' + self._format)"
+    PNG_TEST = "pdf_stem(vdata(val)) + '.' + self._format"      # (the same string; concatenation is uninterpreted)
     REDO = ("not fs_exists_in(_fs0, %s) or self._overwrite or "
-            "_c0['output'].get('changed', False)" % PNG)
+            "_c0['output'].get('changed', False)" % PNG_TEST)
     ix.add(Contract(
         PP, "PDFToPNG.run", props=["C10"], dict_model="Val",
-        ghost={"fs": True, "ctx_wf": CTX_WF},
+        ghost={"v_copy_distinct": True, "fs": True},
         params={"self": "Self[PDFToPNG]", "flow": "Iter[V]"}, generator=True, yields="Any",
         requires=["pulled(flow) == 0"],
         # the selected branch strips ".pdf" from the data part (a string method of an opaque flow value)
@@ -84,9 +105,7 @@ def register_pdf_to_png(ix):
             # order / laziness: the k-th result is handed on when exactly k values have been pulled
             "pulled(flow) == _i + 1", "yield_count() == _i",
             # a value that is not a pdf passes as the very same object; disk and its context stay as they were
-            "not (%s) implies yielded is val" % PDF_SEL,
-            "not (%s) implies fs() == _fs0" % PDF_SEL,
-            "not (%s) implies snapshot(context) == vctx(val)" % PDF_SEL,
+        ] + unselected(PDF_SEL) + [
             # a pdf: the result is a function of the current value and the element's settings
             "%s implies yielded[1] is context and yielded[0] == %s" % (PDF_SEL, PNG),
             "%s implies context['output']['filetype'] == 'png'" % PDF_SEL,
@@ -102,7 +121,492 @@ def register_pdf_to_png(ix):
         modifies=["flow", "fs"]))
 
 
+def register_pdf_to_png_docstring(ix):
+    """FINDING (kept out of every property: props=[]).  Docstring of PDFToPNG.run: `Context is updated with
+    output.filetype set to format`; the code stores the literal "png" whatever the format (jpeg, tiff) is."""
+    ix.add(Contract(
+        PP, "PDFToPNG.run", props=[], dict_model="Val", qualkey="PDFToPNG.run#docstring-filetype",
+        name="PDFToPNG.run[docstring: output.filetype is set to format]", ghost={"fs": True},
+        params={"self": "Self[PDFToPNG]", "flow": "Iter[V]"}, generator=True, yields="Any",
+        requires=["pulled(flow) == 0"],
+        abstract={"data": ("Str", "data == pdf_stem(pdf_name)")},
+        loops={0: LoopSpec(invariant=["pulled(flow) == _i"])},
+        at_yield=["%s implies context['output']['filetype'] == self._format" % PDF_SEL],
+        modifies=["flow", "fs"]))
+
+
+def sp_ctx_now(ip, st, pos, kws):
+    """ctx_now(v): the CURRENT content of the context object the flow value v carries ({} for bare data); vctx(v) is the
+    content it arrived with"""
+    from pyvc.smt import ITE
+    v = pos[0]
+    ip.reg.need_val()
+    f = ip.reg.ufun("vctx", ["V"], "Val")
+    hc = ip.reg.ufun("v_has_context", ["V"], "Bool")
+    tab = st.notes.get("vctx", {})
+    cur = ip.deref(st, tab[v.t.s]) if v.t.s in tab else T("(%s %s)" % (f, v.t.s), "Val")
+    return Opaque(ITE(T("(%s %s)" % (hc, v.t.s), "Bool"), cur, T("(D emptymap)", "Val")))
+
+
+def sp_jinja_render(ip, st, pos, kws):
+    """jinja_render(template, x): the text template.render(x) returns, x a context (dictionary) or a data part"""
+    from pyvc.dicts import dterm
+    tm, x = pos
+    if isinstance(x, Opaque) and x.sort == "V":
+        f = ip.reg.ufun("jinja_render_data", ["Obj", "V"], "V")
+        return Opaque(T("(%s %s %s)" % (f, tm.t.s, x.t.s), "V"))
+    f = ip.reg.ufun("jinja_render_ctx", ["Obj", "Val"], "V")
+    return Opaque(T("(%s %s %s)" % (f, tm.t.s, dterm(ip, st, x).s), "V"))
+
+
+def _upd_defs(ip, st, d, lit):
+    """definition of the reference function upd (contracts/C07.py) at (d, lit) and, since `lit` is a dictionary display,
+    at the nested dictionaries it reaches (upd_item unfolds to upd of the sub-dictionaries)"""
+    from pyvc.dicts import dterm
+    from pyvc.sym import Ref, PyDictCell
+    from contracts.C07 import declare_upd, upd_def
+    declare_upd(ip.reg)
+    o = dterm(ip, st, lit)
+    if not ip.bound_stack:
+        ax = T(upd_def(d.s, o.s), "Bool")
+        if not any(x.s == ax.s for x in st.pc):
+            st.pc.append(ax)
+    if isinstance(lit, Ref) and isinstance(st.heap.get(lit.cid), PyDictCell):
+        for k, sub in st.heap[lit.cid].items.items():
+            if isinstance(sub, Ref) and isinstance(st.heap.get(sub.cid), PyDictCell):
+                kt = ip.reg.key(k).s
+                dk = T("(ite (isD (vget {d} {k})) (vget {d} {k}) (D emptymap))".format(d=d.s, k=kt), "Val")
+                _upd_defs(ip, st, dk, sub)
+    return T("(upd %s %s)" % (d.s, o.s), "Val")
+
+
+def sp_upd_chain(ip, st, pos, kws):
+    """upd_chain(c, o1, o2, ...): the context after update_recursively(c, o1), update_recursively(c, o2), ... (reference
+    function upd of property C07), o_i dictionary displays"""
+    from pyvc.dicts import dterm
+    cur = dterm(ip, st, pos[0])
+    for lit in pos[1:]:
+        cur = _upd_defs(ip, st, cur, lit)
+    return Opaque(cur)
+
+
+def unselected(sel):
+    """the pass-through clauses of C10 for a value the element does not select (checked at every yield)"""
+    return ["not (%s) implies yielded is val" % sel,            # the very same object
+            "not (%s) implies fs() == _fs0" % sel,              # nothing on disk is touched
+            "not (%s) implies ctx_now(val) == vctx(val)" % sel]  # nothing of its context is modified
+
+
+CSV_SEL = "ctx_get(vctx(val), 'output', 'filetype') == present('csv')"
+
+
+def register_render_latex(ix):
+    ix.spec_names["jinja_template"] = _ufun_spec("jinja_template", ["Obj", "V"], "Obj")
+    ix.spec_names["jinja_render"] = sp_jinja_render
+    ix.add(Contract(RL, "_is_csv", props=["C10"], dict_model="Val",
+                    params={"value": "V"}, result="Bool",
+                    # docstring: test whether context.output.filetype is "csv"
+                    ensures=["result == (ctx_get(vctx(value), 'output', 'filetype') == present('csv'))",
+                             "ctx_now(value) == old(ctx_now(value))"]))      # (its context is only read)
+    FIELDS = {"_select_template": "Obj", "_environment": "Obj", "_from_data": "Bool", "_verbose": "Int"}
+    ix.add_class(ClassSpec("RenderLaTeX", RL, fields=dict(FIELDS, _select_data="Obj")))
+    ix.add_class(ClassSpec("RenderLaTeX_csv", RL, alias_of="RenderLaTeX",
+                           fields=dict(FIELDS, _select_data="Def[lena.output.render_latex._is_csv]")))
+    TEMPLATE = "jinja_template(self._environment, el_call(self._select_template, val))"
+    for spec, sel, qk, what in (("RenderLaTeX", "el_call(self._select_data, val)", None, "select_data: any user callable"),
+                                ("RenderLaTeX_csv", CSV_SEL, "RenderLaTeX_csv.run", "default select_data (_is_csv)")):
+        ix.add(Contract(
+            RL, "RenderLaTeX.run", props=["C10"], dict_model="Val", qualkey=qk, name="RenderLaTeX.run[%s]" % what,
+            ghost={"v_copy_distinct": True, "fs": True},
+            params={"self": "Self[%s]" % spec, "flow": "Iter[V]"}, generator=True, yields="Any",
+            requires=["pulled(flow) == 0"],
+            # jinja2 (third party): the template is a function of the environment and the template name, the rendered text
+            # a function of the template and what is rendered; their exceptions are not modelled
+            abstract={"template": ("Obj", "template == " + TEMPLATE),
+                      "data": ("V", "data == jinja_render(template, render_context)")},
+            loops={0: LoopSpec(invariant=["pulled(flow) == _i", "yield_count() == _i"],
+                               body_ghost={"_fs0": "fs()", "_c0": "snapshot(vctx(val))"})},
+            at_yield=[
+                "pulled(flow) == _i + 1", "yield_count() == _i",
+            ] + unselected(sel) + [
+                # a selected value: rendered from the current value and the element's settings only
+                "(%s) and self._from_data implies yielded[0] == jinja_render(%s, vdata(val) if v_has_context(val) else val)"
+                % (sel, TEMPLATE),
+                "(%s) and not self._from_data implies yielded[0] == jinja_render(%s, snapshot(context))" % (sel, TEMPLATE),
+                "(%s) implies yielded[1] is context and fs() == _fs0" % sel,
+                # docstring: context.output.filetype updates to "tex" (and the file extension with it), nothing else
+                "(%s) implies snapshot(context) == upd_chain(_c0, {'output': {'filetype': 'tex'}}, "
+                "{'output': {'fileext': 'tex'}})" % sel,
+                "(%s) implies ctx_get(context, 'output', 'filetype') == present('tex') and "
+                "ctx_get(context, 'output', 'fileext') == present('tex')" % sel,
+                "(%s) implies all_keys(lambda k: k == 'output' or item(context, k) == item(_c0, k))" % sel,
+                "(%s) and ctx_get(_c0, 'output') != absent() and isdict(_c0['output']) implies all_keys(lambda k: "
+                "k == 'filetype' or k == 'fileext' or item(context['output'], k) == item(_c0['output'], k))" % sel,
+            ],
+            ensures=["pulled(flow) == len(content(flow))", "yield_count() == len(content(flow))"],
+            modifies=["flow"]))
+
+
+# ------------------------------------------------------------------------------------------------------------ ToCSV
+def sp_dataof(ip, st, pos, kws):
+    """dataof(v): the data part of the flow value v (v itself for bare data)"""
+    from pyvc.smt import ITE
+    v = pos[0]
+    hc = ip.reg.ufun("v_has_context", ["V"], "Bool")
+    fd = ip.reg.ufun("vdata", ["V"], "V")
+    return Opaque(ITE(T("(%s %s)" % (hc, v.t.s), "Bool"), T("(%s %s)" % (fd, v.t.s), "V"), v.t))
+
+
+def sp_vattr(ip, st, pos, kws):
+    """vattr(x, 'name'): the data attribute x.name of a flow value (declared in ghost v_members)"""
+    from pyvc.vmembers import attr_value
+    r = attr_value(ip, pos[0], pos[1].s)
+    if r is None:
+        from pyvc.interp import Unsupported
+        raise Unsupported("vattr: attribute %s is not declared in v_members" % pos[1].s)
+    return r
+
+
+def sp_vcall(ip, st, pos, kws):
+    """vcall(x, 'name'): what the method x.name() of a flow value returns (declared in ghost v_members)"""
+    f = ip.reg.ufun("vcall_%s" % pos[1].s, ["V"], "V")
+    return Opaque(T("(%s %s)" % (f, pos[0].t.s), "V"))
+
+
+def sp_vctxupd(ip, st, pos, kws):
+    """vctxupd(x, 'name', c): the content of the dictionary c after x.name(c) (declared in ghost v_members)"""
+    from pyvc.dicts import dterm
+    ip.reg.need_val()
+    f = ip.reg.ufun("vctxupd_%s" % pos[1].s, ["V", "Val"], "Val")
+    return Opaque(T("(%s %s %s)" % (f, pos[0].t.s, dterm(ip, st, pos[2]).s), "Val"))
+
+
+def sp_callable_attr(ip, st, pos, kws):
+    """callable_attr(x, 'name'): callable(x.name) for a flow value x"""
+    ip.reg.need_val()
+    f = ip.reg.ufun("callable_attr_V", ["V", "Key"], "Bool")
+    return Bool(T("(%s %s %s)" % (f, pos[0].t.s, ip.reg.key(pos[1].s).s), "Bool"))
+
+
+def register_to_csv(ix):
+    for n, f in (("dataof", sp_dataof), ("vattr", sp_vattr), ("vcall", sp_vcall), ("vctxupd", sp_vctxupd),
+                 ("callable_attr", sp_callable_attr)):
+        ix.spec_names[n] = f
+    ix.spec_names["csv_lines1"] = _ufun_spec("csv_lines1", ["V", "Val", "Key", "Val"], "V")
+    ix.spec_names["csv_lines2"] = _ufun_spec("csv_lines2", ["V", "Val", "Key", "Val"], "V")
+    ix.spec_names["table_of"] = _ufun_spec("table_of", ["V", "Key", "Val", "Key"], "V")
+    ix.spec_names["csv_join"] = _ufun_spec("csv_join", ["Key", "V"], "Key")
+    # update_recursively(d, "a.b.value"): docstring -- str_to_dict converts the string, then as for a dictionary.  The two
+    # parts are proved (C08 str_to_dict[s], C07 update_recursively); their two-line composition is assumed here.
+    ur = ix.by_key[(CF, "update_recursively")]
+    if not ur.cases:
+        import copy
+        base = copy.copy(ur)
+        base.cases = None
+        ur.cases = [base]
+    if not any(c.name == "update_recursively[d, 'output.filetype.csv']" for c in ur.cases):
+        ur.cases.insert(0, Contract(
+            CF, "update_recursively", name="update_recursively[d, 'output.filetype.csv']", props=[], trusted=True,
+            dict_model="Val", params={"d": "Dict", "other": "Str['output.filetype.csv']"}, result=None,
+            requires=["isdict(d)"],
+            ensures=["d == upd_chain(old(d), {'output': {'filetype': 'csv'}})"], modifies=["d"],
+            notes="assumed: the dotted-string form is the dictionary form after str_to_dict (docstring)"))
+    for k in (1, 2):
+        ix.add(Contract(TC, "hist%dd_to_csv" % k, props=[], trusted=True,
+                        params={"hist": "V", "header": "Val", "separator": "Str", "duplicate_last_bin": "Val"}, result="V",
+                        ensures=["result == csv_lines%d(hist, header, separator, duplicate_last_bin)" % k],
+                        notes="assumed: the lines are a function of the histogram and the three settings (a generator "
+                              "function: calling it runs nothing)"))
+    ix.add(Contract(TC, "iterable_to_table", props=[], trusted=True,
+                    params={"iterable": "V", "row_separator": "Str", "header": "Val", "row_end": "Str"}, result="V",
+                    ensures=["result == table_of(iterable, row_separator, header, row_end)", "result"],
+                    notes="assumed: a generator function -- the call raises nothing and returns a generator object "
+                          "(always true in a test), whose lines are a function of the rows and the three settings"))
+    ix.add_class(ClassSpec("ToCSV", TC, fields={"_separator": "Str", "_header": "Val", "_row_end": "Str",
+                                                "_last_row_end": "Str", "_duplicate_last_bin": "Val"}))
+    D = "dataof(val)"
+    ALLOWED = ("(ctx_get(vctx(val), 'output', 'to_csv') == absent() or the(ctx_get(vctx(val), 'output', 'to_csv')))")
+    HIST = "is_instance_of(%s, 'histogram')" % D
+    H1 = "(%s and %s and vattr(%s, 'dim') == 1)" % (ALLOWED, HIST, D)
+    H2 = "(%s and %s and vattr(%s, 'dim') == 2)" % (ALLOWED, HIST, D)
+    ROWS = "(%s and not %s and has_attr(%s, 'rows'))" % (ALLOWED, HIST, D)
+    SEL = "(%s or %s or %s)" % (H1, H2, ROWS)
+    G = "ctx_get(_c0, 'output', 'duplicate_last_bin')"
+    DUP = "(the(%s) if (%s != absent() and the(%s) is not _sentinel) else self._duplicate_last_bin)" % (G, G, G)
+    UPC = "(has_attr(%s, '_update_context') and callable_attr(%s, '_update_context'))" % (D, D)
+    CSVC = "{'output': {'filetype': 'csv'}}"
+    ix.add(Contract(
+        TC, "ToCSV.run", props=["C10"], dict_model="Val",
+        ghost={"v_copy_distinct": True, "fs": True, "v_members": {"dim": "attr:Int", "rows": "method0:V", "_update_context": "ctxupdate"}},
+        params={"self": "Self[ToCSV]", "flow": "Iter[V]"}, generator=True, yields="Any",
+        requires=["pulled(flow) == 0"],
+        # the text is the join of the lines (a string method over a generator: abstracted)
+        abstract={"csv@0": ("Str", "csv == csv_join(row_sep, lines_iter) + self._last_row_end"),
+                  "csv@1": ("Str", "csv == csv_join('\\n', rows) + self._last_row_end")},
+        loops={0: LoopSpec(invariant=["pulled(flow) == _i", "yield_count() == _i"],
+                           body_ghost={"_fs0": "fs()", "_c0": "snapshot(vctx(val))"})},
+        at_yield=[
+            "pulled(flow) == _i + 1", "yield_count() == _i",
+        ] + unselected(SEL) + [
+            "%s implies yielded[1] is context and fs() == _fs0" % SEL,
+            # histograms: the text is made of this histogram and the element's settings; context.output.duplicate_last_bin
+            # of THIS value takes precedence over the element's own setting
+            "%s implies yielded[0] == csv_join(self._row_end + '\\n', csv_lines1(%s, self._header, self._separator, %s)) "
+            "+ self._last_row_end" % (H1, D, DUP),
+            "%s implies yielded[0] == csv_join(self._row_end + '\\n', csv_lines2(%s, self._header, self._separator, %s)) "
+            "+ self._last_row_end" % (H2, D, DUP),
+            "%s implies yielded[0] == csv_join('\\n', table_of(vcall(%s, 'rows'), self._separator, self._header, "
+            "self._row_end)) + self._last_row_end" % (ROWS, D),
+            # context: updated by the data structure itself, and output.filetype becomes "csv"
+            "(%s or %s) implies snapshot(context) == upd_chain(vctxupd(%s, '_update_context', _c0), %s)" % (H1, H2, D, CSVC),
+            "%s and %s implies snapshot(context) == upd_chain(vctxupd(%s, '_update_context', _c0), %s)" % (ROWS, UPC, D, CSVC),
+            "%s and not %s implies snapshot(context) == upd_chain(_c0, %s)" % (ROWS, UPC, CSVC),
+        ],
+        ensures=["pulled(flow) == len(content(flow))", "yield_count() == len(content(flow))"],
+        modifies=["flow"]))
+
+
+# ------------------------------------------------------------------------------------------------------ HistToGraph
+VA = "lena/variables/variable.py"
+# the frame of Variable._update_context (proved in contracts/P_var.py under well-formedness preconditions on
+# context.variable; here the bin context is abstracted, so only the frame is used, as an assumption)
+VAR_UPD_FRAME = Contract(
+    VA, "Variable._update_context", props=[], trusted=True, self_class="static",
+    params={"context": "Dict", "var_context": "Dict"}, result=None,
+    requires=["is_deep_copy(var_context)", "isdict(context)"],
+    ensures=["isdict(context)", "all_keys(lambda k: k == 'variable' or item(context, k) == item(old(context), k))"],
+    modifies=["context"],
+    notes="frame of the static method: only context['variable'] is assigned")
+
+
+def register_hist_to_graph(ix):
+    ix.spec_names["hist_graph"] = _ufun_spec("hist_graph", ["V", "Obj", "V", "Key", "V"], "V")
+    ix.spec_names["bin_context_of"] = _ufun_spec("bin_context_of", ["V"], "Val")
+    ix.add_class(ClassSpec("HistToGraph", SE, fields={"_make_value": "Inst[Variable]", "_get_coordinate": "Str",
+                                                      "_field_names": "V", "_scale": "V"}))
+    D = "dataof(val)"
+    G = "ctx_get(vctx(val), 'histogram', 'to_graph')"
+    SEL = "(is_instance_of(%s, 'histogram') and (%s == absent() or the(%s)))" % (D, G, G)
+    ix.add(Contract(
+        SE, "HistToGraph.run", props=["C10"], dict_model="Val",
+        ghost={"v_copy_distinct": True, "fs": True, "assumed_callees": {"Variable._update_context": VAR_UPD_FRAME}},
+        params={"self": "Self[HistToGraph]", "flow": "Iter[V]"}, generator=True, yields="Any",
+        requires=["pulled(flow) == 0"],
+        # the selected branch: the context of an example bin (a dictionary whose value.value... are dictionaries) and the
+        # graph made by hist_to_graph (contracts/P_hist.py) are taken as functions of the histogram and the settings
+        abstract={"bin_context": ("Dict", "bin_context == bin_context_of(hist) and kchain(bin_context, 'value')"),
+                  "graph": ("V", "graph == hist_graph(hist, self._make_value.getter, self._field_names, "
+                                 "self._get_coordinate, self._scale)")},
+        loops={0: LoopSpec(invariant=["pulled(flow) == _i", "yield_count() == _i"],
+                           body_ghost={"_fs0": "fs()", "_c0": "snapshot(vctx(val))"})},
+        at_yield=[
+            "pulled(flow) == _i + 1", "yield_count() == _i",
+        ] + unselected(SEL) + [
+            # a histogram: the graph is made of this histogram and the element's settings; only context.value changes
+            "%s implies yielded[0] == hist_graph(%s, self._make_value.getter, self._field_names, self._get_coordinate, "
+            "self._scale)" % (SEL, D),
+            "%s implies yielded[1] is context and fs() == _fs0" % SEL,
+            "%s implies all_keys(lambda k: k == 'value' or item(context, k) == item(_c0, k))" % SEL,
+        ],
+        ensures=["pulled(flow) == len(content(flow))", "yield_count() == len(content(flow))",
+                 "self._make_value.var_context == old(self._make_value.var_context)"],
+        modifies=["flow"]))
+
+
+# ---------------------------------------------------------------------------------------------- IterateBins, MapBins
+HF = "lena/structures/hist_functions.py"
+SB = "lena/structures/split_into_bins.py"
+
+
+# update_nested(key, d, other) inside the abstracted branches: its proved contract (contracts/P_ctx.py) does not say that d
+# is still a dictionary afterwards; here only this frame is used (a consequence of the docstring: d[key] = other)
+UPDATE_NESTED_FRAME = Contract(
+    CF, "update_nested", props=[], trusted=True, dict_model="Val",
+    params={"key": "Str", "d": "Dict", "other": "Dict"}, result=None,
+    requires=["isdict(d)"],
+    ensures=["isdict(d)", "all_keys(lambda k: k == key or item(d, k) == item(old(d), k))"],
+    modifies=["d", "other"],
+    notes="frame: of d only d[key] changes, and d stays a dictionary")
+
+
+def register_bins_helpers(ix):
+    """the helpers of lena/structures/hist_functions.py on an ABSTRACT histogram (a flow value of sort V): assumed
+    functions of their arguments (their contracts for concrete 1-d histograms are in contracts/P_hist.py)"""
+    ix.spec_names["example_bin"] = _ufun_spec("example_bin", ["V"], "V")
+    ix.spec_names["deepcopy_v"] = _ufun_spec("deepcopy_V", ["V"], "V")
+    geb = Contract(HF, "get_example_bin", name="get_example_bin[abstract histogram]", props=[], trusted=True,
+                   params={"struct": "V"}, result="V", ensures=["result == example_bin(struct)"],
+                   notes="assumed: an example bin is a function of the structure")
+    cur = ix.by_key.get((HF, "get_example_bin"))
+    if cur is None:
+        ix.add(Contract(HF, "get_example_bin", props=[], cases=[geb]))
+    elif cur.cases is not None and not any(c.name == geb.name for c in cur.cases):
+        cur.cases.append(geb)
+    ibe = ix.by_key.get((HF, "iter_bins_with_edges"))
+    case = Contract(HF, "iter_bins_with_edges", name="iter_bins_with_edges[abstract bins]", props=[], trusted=True,
+                    params={"bins": "V", "edges": "V"}, generator=True, yields="V",
+                    notes="assumed: yields finitely many (bin, edges) pairs; nothing else happens")
+    if ibe is None:
+        ix.add(Contract(HF, "iter_bins_with_edges", props=[], cases=[case]))
+    elif ibe.cases is not None and not any(c.name == case.name for c in ibe.cases):
+        ibe.cases.append(case)
+
+
+def register_iterate_bins(ix):
+    ix.spec_names["edges_str_of"] = _ufun_spec("edges_str_of", ["Obj", "V", "Val"], "V")
+    ix.spec_names["bin_dict"] = _ufun_spec("bin_dict", ["V", "V"], "Val")
+    ix.add_class(ClassSpec("IterateBins", SB, fields={"_create_edges_str": "Obj", "_select_bins": "Inst[Selector]"}))
+    D = "dataof(val)"
+    X = "dataof(example_bin(%s))" % D
+    BINSEL = ("(not el_call_raises(self._select_bins._selector, %s) and el_call(self._select_bins._selector, %s))" % (X, X))
+    SEL = "(is_instance_of(%s, 'histogram') and %s)" % (D, BINSEL)
+    ix.add(Contract(
+        SB, "IterateBins.run", props=["C10"], dict_model="Val",
+        ghost={"v_copy_distinct": True, "fs": True, "v_unpack": True, "v_members": {"bins": "attr:V", "edges": "attr:V"},
+               "assumed_callees": {"update_nested": UPDATE_NESTED_FRAME}},
+        params={"self": "Self[IterateBins]", "flow": "Iter[V]"}, generator=True, yields="Any",
+        requires=["pulled(flow) == 0"],
+        raises={"Exception": "?"},           # a bin selector with raise_on_error lets the user's exception through
+        # the selected branch: the user's create_edges_str (a callable taking a keyword) and the dictionary for context.bin
+        abstract={"edges_str": ("V", "edges_str == edges_str_of(self._create_edges_str, bin_edges, split_var_context)"),
+                  "context_bin": ("Dict", "context_bin == bin_dict(bin_edges, edges_str) and isdict(context_bin) "
+                                          "and not ('bin' in context_bin)")},
+        loops={0: LoopSpec(invariant=["pulled(flow) == _i"],
+                           body_ghost={"_fs0": "fs()", "_yc0": "yield_count()"},
+                           # a value that is not selected is handed on exactly once
+                           body_end=["not (%s) implies yield_count() == _yc0 + 1" % SEL]),
+               1: LoopSpec(invariant=["pulled(flow) == _i0 + 1", "fs() == _fs0", SEL, "ctx_now(val) == vctx(val)"])},
+        at_yield=[
+            "pulled(flow) == _i0 + 1",
+        ] + unselected(SEL) + [
+            # also for a selected histogram: nothing on disk, and its own context is only copied (kept in context.bins)
+            "%s implies fs() == _fs0 and ctx_now(val) == vctx(val)" % SEL,
+        ],
+        ensures=["pulled(flow) == len(content(flow))"],
+        modifies=["flow"]))
+
+
+def register_map_bins(ix):
+    ix.spec_names["bins_data"] = _ufun_spec("bins_data", ["V"], "V")
+    ix.spec_names["make_hist"] = _ufun_spec("make_hist", ["V", "V"], "V")
+    ix.add_class(ClassSpec("MapBins", SB, fields={"_seq": "Obj", "_select_bins": "Inst[Selector]",
+                                                  "_get_example_bin": "Obj", "_drop_bins_context": "Bool"}))
+    D = "dataof(val)"
+    X = "el_call(self._get_example_bin, %s)" % D
+    BINSEL = ("(not el_call_raises(self._select_bins._selector, %s) and el_call(self._select_bins._selector, %s))" % (X, X))
+    SEL = "(is_instance_of(%s, 'histogram') and %s)" % (D, BINSEL)
+    ix.add(Contract(
+        SB, "MapBins.run", props=["C10"], dict_model="Val",
+        ghost={"v_copy_distinct": True, "fs": True, "v_members": {"bins": "attr:V", "edges": "attr:V"},
+               "assumed_callees": {"update_nested": UPDATE_NESTED_FRAME}},
+        params={"self": "Self[MapBins]", "flow": "Iter[V]"}, generator=True, yields="Any",
+        requires=["pulled(flow) == 0"],
+        raises={"Exception": "?"},           # the user's get_example_bin / a bin selector with raise_on_error
+        # the selected branch: the per-bin runs of deep copies of the sequence (_MdSeqMap over nested lists), the
+        # multidimensional map of get_data and the histogram constructor are taken as given
+        abstract={"generators": ("Iter[V]", "pulled(generators) == 0"),
+                  "new_data@0": ("V", "new_data == bins_data(new_bins)"),
+                  "new_hist": ("V", "new_hist == make_hist(edges, new_data)")},
+        loops={0: LoopSpec(invariant=["pulled(flow) == _i"],
+                           body_ghost={"_fs0": "fs()", "_yc0": "yield_count()"},
+                           body_end=["not (%s) implies yield_count() == _yc0 + 1" % SEL]),
+               1: LoopSpec(invariant=["pulled(flow) == _i0 + 1", "fs() == _fs0", SEL, "ctx_now(val) == vctx(val)"])},
+        at_yield=[
+            "pulled(flow) == _i0 + 1",
+        ] + unselected(SEL) + [
+            # also for a selected histogram: nothing on disk; its context is deep-copied, never changed
+            "%s implies fs() == _fs0 and ctx_now(val) == vctx(val)" % SEL,
+            "%s implies yielded[0] == make_hist(deepcopy_v(vattr(%s, 'edges')), bins_data(new_bins) "
+            "if self._drop_bins_context else new_bins)" % (SEL, D),
+        ],
+        ensures=["pulled(flow) == len(content(flow))"],
+        modifies=["flow"]))
+
+
+# --------------------------------------------------------------------------------------------------------- MapGroup
+GP = "lena/flow/group_plots.py"
+
+
+def register_map_group(ix):
+    ix.add_class(ClassSpec("MapGroup", GP, fields={"_seq": "Obj", "_map_scalars": "Bool"}))
+    SEL = "('group' in vctx(val) and has_attr(dataof(val), '__iter__'))"
+    ix.add(Contract(
+        GP, "MapGroup.run", props=["C10"], dict_model="Val", name="MapGroup.run[map_scalars off]",
+        ghost={"v_copy_distinct": True, "fs": True,
+               # a real group (lists of contexts inside the context, one run of the sequence per member, regrouping):
+               # beyond the subset -- not interpreted, see pyvc/vmembers.py
+               "opaque_regions": [{"start": "if len(data) != len(context['group'])", "yields": True, "contexts": True,
+                                   "fs": True, "raises": ["LenaRuntimeError", "Exception"]}]},
+        params={"self": "Self[MapGroup]", "flow": "Iter[V]"}, generator=True, yields="Any",
+        requires=["pulled(flow) == 0", "not self._map_scalars"],
+        raises={"LenaRuntimeError": "?", "Exception": "?"},
+        loops={0: LoopSpec(invariant=["pulled(flow) == _i"],
+                           body_ghost={"_fs0": "fs()", "_yc0": "yield_count()"},
+                           # a scalar (a value that is not a group) is handed on exactly once
+                           body_end=["not (%s) implies yield_count() == _yc0 + 1" % SEL]),
+               # (the branch for map_scalars=True: unreachable under the precondition)
+               1: LoopSpec(invariant=["pulled(flow) == _i0 + 1"])},
+        at_yield=["pulled(flow) == _i0 + 1"] + unselected(SEL),
+        ensures=["pulled(flow) == len(content(flow))"],
+        modifies=["flow", "fs"]))
+
+
+# -------------------------------------------------------------------------------------------------------- LaTeXToPDF
+LP = "lena/output/latex_to_pdf.py"
+
+
+def register_latex_to_pdf(ix):
+    cur = ix.classes.get("LaTeXToPDF")
+    if cur is None:
+        ix.add_class(ClassSpec("LaTeXToPDF", LP, fields={"_overwrite": "Bool", "verbose": "Int", "create_command": "Obj",
+                                                         "processes": "Obj"}))
+    if (LP, "LaTeXToPDF.run.pop_returned_processes") not in ix.by_key:
+        ix.add(Contract(LP, "LaTeXToPDF.run.pop_returned_processes", props=[], trusted=True,
+                        params={"processes": "Any", "verbose": "Any"}, generator=True, yields="V",
+                        notes="assumed: polls the pool and yields the (pdf name, context) pairs of finished processes; no "
+                              "file is touched, no context is changed (the pool itself is not modelled)"))
+    SEL = "ctx_get(vctx(val), 'output', 'filetype') == present('tex')"
+    REGION = {"yields": True, "contexts": True, "fs": True, "raises": ["Exception"]}
+    ix.add(Contract(
+        LP, "LaTeXToPDF.run", props=["C10"], dict_model="Val",
+        ghost={"v_copy_distinct": True, "fs": True,
+               # a TeX file (mtime comparison, the process pool, subprocess.Popen) and the final wait for the pool
+               # (communicate, KeyboardInterrupt): beyond the subset -- not interpreted, see pyvc/vmembers.py
+               "opaque_regions": [dict(REGION, start="outputc = context['output']"),
+                                  dict(REGION, start="for filename in list(self.processes.keys())")]},
+        params={"self": "Self[LaTeXToPDF]", "flow": "Iter[V]"}, generator=True, yields="Any",
+        requires=["pulled(flow) == 0"],
+        raises={"Exception": "?"},
+        loops={1: LoopSpec(invariant=["pulled(flow) == _i"], ghost={"val": "V"},
+                           body_ghost={"_fs0": "fs()"},
+                           # besides the finished pdfs collected at the top of the iteration, a value that is no TeX file
+                           # is handed on exactly once
+                           body_end=["not (%s) implies yield_count() == _ycp + 1" % SEL]),
+               2: LoopSpec(invariant=["pulled(flow) == _i1 + 1", "fs() == _fs0", "ctx_now(val) == vctx(val)"],
+                           exit_ghost={"_ycp": "yield_count()"})},
+        at_yield=[
+            "pulled(flow) == _i1 + 1",
+            # (yields inside loop #2 hand on pdfs whose processes have finished in the meantime)
+            "not in_loop(2) and not (%s) implies yielded is val" % SEL,
+            "not (%s) implies fs() == _fs0" % SEL,
+            "not (%s) implies ctx_now(val) == vctx(val)" % SEL,
+        ],
+        ensures=["pulled(flow) == len(content(flow))"],
+        modifies=["flow", "fs"]))
+
+
 def register(ix):
     ix.spec_names["ctx_get"] = sp_ctx_get
+    ix.spec_names["ctx_now"] = sp_ctx_now
+    ix.spec_names["upd_chain"] = sp_upd_chain
     register_get_recursively(ix)
     register_pdf_to_png(ix)
+    register_pdf_to_png_docstring(ix)
+    register_render_latex(ix)
+    register_to_csv(ix)
+    register_hist_to_graph(ix)
+    register_bins_helpers(ix)
+    register_iterate_bins(ix)
+    register_map_bins(ix)
+    register_map_group(ix)
+    register_latex_to_pdf(ix)
